@@ -116,7 +116,7 @@ func (a *recAIO) Flush(int64)                                  {}
 func (a *recAIO) Dispatch(*t_aio.Submission, func(*t_aio.Completion, error)) {
 	panic("pushx: Dispatch not used")
 }
-func (a *recAIO) EnqueueSQE(*sqeT)        { panic("pushx: EnqueueSQE not used") }
+func (a *recAIO) EnqueueSQE(*sqeT)       { panic("pushx: EnqueueSQE not used") }
 func (a *recAIO) DequeueCQE(int) []*cqeT { return nil }
 func (a *recAIO) EnqueueCQE(c *cqeT) {
 	r := "failure"
@@ -184,7 +184,9 @@ func receiver(rec *record) nethttp.Handler {
 }
 
 func address(m msg, port, closed int) string {
-	u := func(scheme string, p int, ep string) string { return fmt.Sprintf("%s://127.0.0.1:%d/%s/%s", scheme, p, ep, m.Id) }
+	u := func(scheme string, p int, ep string) string {
+		return fmt.Sprintf("%s://127.0.0.1:%d/%s/%s", scheme, p, ep, m.Id)
+	}
 	q := func(s string) string { b, _ := json.Marshal(s); return string(b) }
 	switch m.Addr {
 	case "url":
